@@ -1,9 +1,36 @@
 //go:build verif
 
-// Contracts for the Badger access layer. Manager and transaction wrap
-// github.com/dgraph-io/badger/v3 directly, so these interface contracts are
-// TRUSTED (assumed): a durable byte-string map with atomic multi-key update.
+// Contracts for the Badger access layer, read by /verif/govc.
+//
+// Manager.DB and Manager.RunTransaction are under contract (proved): the two must agree on how a Badger
+// transaction travels in the context, or the writes of a commit silently stop being one batch.  What Badger
+// itself does (durable byte-string map, DB.Update = atomic multi-key update that is discarded when the
+// callback fails) is TRUSTED: the QueryManager interface contracts below and (*badger.DB).Update in
+// /verif/trusted/stdlib.spec.
 package badger
+
+// txnOf: the Badger transaction a context carries (nil: none) -- the value under the key ctxTxn{} when it is a
+// *badger.Txn.
+//@ pure func txnOf(ctx context.Context) *badger.Txn =
+//@     ite(typeis(ctxVal(ctx, box(zero(ctxTxn))), *badger.Txn), unbox(ctxVal(ctx, box(zero(ctxTxn))), *badger.Txn), nil)
+
+// DB: inside a transaction the querier is that transaction, outside it is the manager (auto-commit).
+//@ func (*Manager).DB
+//@   requires ctx: ctx != nil
+//@   ensures nonnil: result != nil
+//@   ensures intx: txnOf(ctx) != nil ==> typeis(result, transaction) && unbox(result, transaction).Txn == txnOf(ctx)
+//@   ensures notx: txnOf(ctx) == nil ==> typeis(result, *Manager) && unbox(result, *Manager) == m
+
+// RunTransaction: the body runs exactly once; either in a context that DB recognises as a Badger transaction
+// (so every write the body makes through DB(ctx) belongs to one atomic update) or, nested, in the caller's own
+// context; a failing body fails the call (DB.Update then discards the batch).
+//@ func (*Manager).RunTransaction
+//@   requires ctx: ctx != nil
+//@   requires m: m != nil
+//@   modifies *
+//@   ensures once:    world.fnCalls == old(world.fnCalls) + 1
+//@   ensures intxn:   txnOf(world.fnCtx) != nil || world.fnCtx == ctx
+//@   ensures verdict: world.fnErr != nil ==> result != nil
 
 //@ iface Provider.DB
 //@   trusted
